@@ -17,6 +17,8 @@ const STUB_SERVER_TCP: &str = "network (simtokio), clock, executor, peer (direct
 
 const REAL_SERVER_RTU: &str = "rodbus RTU server task (open/retry loop), server session task, RTU parser (length rules, CRC check), ReadBuffer, FrameWriter (RTU), request parsing, broadcast fan-out, PhysLayer inter-character delay";
 const STUB_SERVER_RTU: &str = "serial port registry (simserial), clock, executor, line peer (director), application handlers (instrumented point memory)";
+const REAL_CLIENT_RTU: &str = "rodbus RTU client task (open/retry loop, ClientLoop), RTU response parser and CRC check, FrameWriter (RTU), PhysLayer inter-character delay, Channel / CallbackSession handles";
+const STUB_CLIENT_RTU: &str = "serial port registry (simserial), clock, executor, line peer (director), port-state listener (recording)";
 const REAL_CLIENT_TCP: &str = "rodbus TCP client task (connect/retry loop, ClientLoop, request execution), Channel / CallbackSession handles, MBAP framing, request serialisation, response parsing, tokio mpsc/oneshot/select";
 const STUB_CLIENT_TCP: &str = "network (simtokio), clock, executor, peer (director), connection listener (recording)";
 
@@ -71,6 +73,7 @@ pub fn get(prop: &str, tier: &str) -> Option<Check> {
                 Batch { name: "client_lockstep_replies", f: scen::client::run_lockstep, cfg: cfg(Mode::LockStep, false, 2), runs: n(80_000, 3_000_000), real: REAL_CLIENT_TCP, stub: STUB_CLIENT_TCP },
                 Batch { name: "client_lockstep", f: scen::client::run_lockstep, cfg: cfg(Mode::LockStep, false, 0), runs: n(40_000, 1_000_000), real: REAL_CLIENT_TCP, stub: STUB_CLIENT_TCP },
                 Batch { name: "client_encoding", f: scen::client::run_encoding, cfg: cfg(Mode::LockStep, false, 0), runs: n(20_000, 500_000), real: REAL_CLIENT_TCP, stub: STUB_CLIENT_TCP },
+                Batch { name: "client_lockstep_rtu", f: scen::client::run_lockstep_rtu, cfg: cfg(Mode::LockStep, false, 2), runs: n(30_000, 800_000), real: REAL_CLIENT_RTU, stub: STUB_CLIENT_RTU },
             ],
             assumptions: vec!["byte-count field of read replies is not examined (length is)"],
         },
@@ -86,6 +89,10 @@ pub fn get(prop: &str, tier: &str) -> Option<Check> {
                 Batch { name: "client_lockstep", f: scen::client::run_lockstep, cfg: cfg(Mode::LockStep, false, 0), runs: n(150_000, 5_000_000), real: REAL_CLIENT_TCP, stub: STUB_CLIENT_TCP },
                 Batch { name: "client_lockstep_faults", f: scen::client::run_lockstep, cfg: cfg(Mode::LockStep, true, 0), runs: n(50_000, 1_500_000), real: REAL_CLIENT_TCP, stub: STUB_CLIENT_TCP },
             ];
+            if p != "C11" {
+                batches.push(Batch { name: "client_lockstep_rtu", f: scen::client::run_lockstep_rtu, cfg: cfg(Mode::LockStep, false, 0), runs: n(60_000, 2_000_000), real: REAL_CLIENT_RTU, stub: STUB_CLIENT_RTU });
+                batches.push(Batch { name: "client_lockstep_rtu_faults", f: scen::client::run_lockstep_rtu, cfg: cfg(Mode::LockStep, true, 0), runs: n(20_000, 500_000), real: REAL_CLIENT_RTU, stub: STUB_CLIENT_RTU });
+            }
             if p == "C11" {
                 batches.push(Batch { name: "client_txid_wrap", f: scen::client::run_lockstep, cfg: cfg(Mode::LockStep, false, 1), runs: n(2, 16), real: REAL_CLIENT_TCP, stub: STUB_CLIENT_TCP });
             }
@@ -97,6 +104,7 @@ pub fn get(prop: &str, tier: &str) -> Option<Check> {
             batches: vec![
                 Batch { name: "rtu_server_model", f: scen::rtu::run_server_model, cfg: cfg(Mode::LockStep, false, 0), runs: n(80_000, 2_000_000), real: REAL_SERVER_RTU, stub: STUB_SERVER_RTU },
                 Batch { name: "rtu_server_model_faults", f: scen::rtu::run_server_model, cfg: cfg(Mode::LockStep, true, 0), runs: n(30_000, 800_000), real: REAL_SERVER_RTU, stub: STUB_SERVER_RTU },
+                Batch { name: "client_lockstep_rtu", f: scen::client::run_lockstep_rtu, cfg: cfg(Mode::LockStep, false, 0), runs: n(40_000, 1_000_000), real: REAL_CLIENT_RTU, stub: STUB_CLIENT_RTU },
             ],
             assumptions: vec!["line model: bytes written while the port is closed are lost (UART)", "what a mis-framed parser consumes before failing is not specified: the session is reset"],
         },
